@@ -639,5 +639,53 @@ func c14Rollback(c *core.Ctx, pkg *packages.Package) {
 		}
 		return true
 	})
+	// per task rolled back, on paths: fetched ⇒ Replace; enabled ⇒ stopTask then startTask, whatever else holds
+	eng := &an.Engine{Prog: c.P, Info: info,
+		TrackCall: func(call *ast.CallExpr, callee *types.Func) string {
+			if callee == nil {
+				return ""
+			}
+			switch callee.Name() {
+			case "Get", "Replace", "stopTask", "startTask":
+				return callee.Name()
+			}
+			return ""
+		},
+		Classify: func(a an.Atom) (string, bool) {
+			switch {
+			case a.Op == token.EQL && a.R == "nil" && an.LastCall(a.L) == "Get":
+				return "fetched", false
+			case a.Op == token.EQL && strings.HasSuffix(a.L, ".Status") && strings.HasSuffix(a.R, "Enabled"):
+				return "enabled", false
+			}
+			return "", false
+		}}
+	if paths, err := eng.RunBody(fl.Type, nil, rb.Body); err != nil {
+		c.Undecided("C14.rollback", "updateAllAssociatedTasks#restart", rb.Pos(), "%v", err)
+	} else {
+		good := len(paths) > 0
+		for _, p := range paths {
+			a := p.Assign()
+			if v, dec := a["fetched"]; !dec || !v {
+				continue
+			}
+			w := an.Seq(p, "Replace", "stopTask", "startTask")
+			want := "Replace"
+			if en, dec := a["enabled"]; !dec {
+				good = false
+				c.Fail("C14.rollback", "updateAllAssociatedTasks#restart", p.RetPos, "a rolled-back task is not tested for being enabled")
+				continue
+			} else if en {
+				want = "Replace,stopTask,startTask"
+			}
+			if w != want {
+				good = false
+				c.Fail("C14.rollback", "updateAllAssociatedTasks#restart", p.RetPos, "a rolled-back task that is enabled=%v goes through [%s], must go through [%s] (%s): the task the update failed on was already stopped by the forward pass; if the rollback does not restart it, it stays enabled with a valid definition and is not executing", a["enabled"], w, want, p.Cond())
+			}
+		}
+		if good {
+			c.Ok("C14.rollback", "updateAllAssociatedTasks#restart")
+		}
+	}
 	c.Check(restored["TemplateID"] && restored["TICKscript"] && restored["Type"] && replace && reload, "C14.rollback", "updateAllAssociatedTasks#restores", rb.Pos(), "the rollback must restore TemplateID, TICKscript and Type from the old template, Replace the task and reload it if enabled (restored %v, replace %v, reload %v)", restored, replace, reload)
 }
